@@ -125,7 +125,7 @@ fn small_val(rng: &mut Rng, ty: Ty) -> CVal {
 const SIMPLE_TYS: [Ty; 7] = [Ty::A, Ty::B, Ty::E, Ty::V, Ty::Transform, Ty::Name, Ty::Visibility];
 
 /// fault enumeration (C08): message kind x receiver condition x direction, then a fresh operation
-const FAULT_CASES: usize = 20;
+const FAULT_CASES: usize = 23;
 
 fn fault_history(seed: u64, idx: usize, out: &mut impl Write) {
     let mut rng = Rng::new(seed.wrapping_mul(7_000_003) ^ (idx as u64) ^ 0xFA17);
@@ -135,10 +135,18 @@ fn fault_history(seed: u64, idx: usize, out: &mut impl Write) {
     // registration sets: case 3 registers B on the sender only
     let mut host_cfg = PeerCfg::default();
     let mut client_cfg = PeerCfg::default();
-    if case >= 17 {
+    if (17..20).contains(&case) {
         // references inside a payload: a SkinnedMesh names its joints by uuid
         host_cfg.registered.push(Ty::Skinned);
         client_cfg.registered.push(Ty::Skinned);
+    }
+    if case >= 20 {
+        // published assets with content at the edge of their domain (legal values an application can hold)
+        for cfg in [&mut host_cfg, &mut client_cfg] {
+            cfg.materials = true;
+            cfg.meshes = true;
+            cfg.audios = true;
+        }
     }
     if case == 3 {
         let without_b: Vec<Ty> = PeerCfg::default().registered.into_iter().filter(|t| *t != Ty::B).collect();
@@ -146,14 +154,15 @@ fn fault_history(seed: u64, idx: usize, out: &mut impl Write) {
     }
     let mut c = Ctx { s: Session::new(false, host_cfg), rng: rng.fork(), next_h: 0, live: vec![], nclients };
     for k in 0..nclients {
-        let cfg = if k == 0 || case >= 17 { PeerCfg { registered: client_cfg.registered.clone(), ..PeerCfg::default() } } else { PeerCfg::default() };
+        let cfg = if k == 0 || case >= 17 { PeerCfg { registered: client_cfg.registered.clone(), materials: client_cfg.materials, meshes: client_cfg.meshes, audios: client_cfg.audios, ..PeerCfg::default() } } else { PeerCfg::default() };
         c.s.add_client(cfg, rng.below(3));
     }
     let names = ["comp+despawn_cmd", "comp+despawn_between", "comp+delete_same_frame", "comp_unregistered_on_receiver",
         "parented+child_despawn_cmd", "parented+parent_despawn_cmd", "parented+parent_despawn_between", "parented+child_despawn_between",
         "delete+delete_crossing", "delete+despawn_cmd", "spawn+delete_same_frame", "comp_burst+despawn_cmd",
         "parented_chain+despawn_cmd", "comp+sender_despawns_after_write", "reparent+old_parent_despawn_cmd", "delete_parent_with_child",
-        "comp_large_value", "skinned+joint_despawn_between", "skinned+joint_despawn_cmd", "skinned+joint_deleted_by_sender"];
+        "comp_large_value", "skinned+joint_despawn_between", "skinned+joint_despawn_cmd", "skinned+joint_deleted_by_sender",
+        "asset_edge_mesh", "asset_edge_image", "asset_edge_audio"];
     writeln!(out, "{}", json!({"ev":"history","family":"fault","id":format!("fault-{}-{}", seed, idx),"clients":nclients,"v6":false,
         "case":names[case],"to_host":to_host})).unwrap();
     let types: serde_json::Map<String, serde_json::Value> =
@@ -207,6 +216,21 @@ fn fault_history(seed: u64, idx: usize, out: &mut impl Write) {
                 17 => { c.s.step(snd); c.s.despawn(rcv, y); }
                 18 => { c.s.step(snd); c.s.despawn_in_frame(rcv, y); }
                 _ => { c.s.despawn(snd, y); c.s.step(snd); c.s.step(snd); }
+            }
+        }
+        20 | 21 | 22 => {
+            let kind = match case { 20 => AKind::Mesh, 21 => AKind::Image, _ => AKind::Audio };
+            for variant in 0..3u64 {
+                let id = uuid::Uuid::from_bytes(c.rng.bytes(16).try_into().unwrap());
+                c.s.asset_insert_edge(snd, kind, id, variant);
+            }
+            c.s.step(snd);
+            for _ in 0..40 {
+                c.lockstep(1);
+                std::thread::sleep(std::time::Duration::from_millis(2));
+                if c.s.panicked.is_some() {
+                    break;
+                }
             }
         }
         _ => {
@@ -946,6 +970,33 @@ fn history(family: &str, seed: u64, idx: usize, thorough: bool, out: &mut impl W
                 let d = c.drain(80);
                 c.s.trace.push(json!({"ev":"drain","quiescent":d.0,"rounds":d.1}));
             }
+            // one history in six: somebody joins after an asset first served by the host has been overwritten by a client
+            // (everything drained in between: what the joiner is pointed at must be the current content)
+            if idx % 6 == 3 && c.nclients >= 1 {
+                let d = c.drain(80);
+                c.s.trace.push(json!({"ev":"drain","quiescent":d.0,"rounds":d.1}));
+                let kind = *c.rng.pick(&[AKind::Mesh, AKind::Image, AKind::Audio, AKind::Material]);
+                let id = uuid::Uuid::from_bytes(c.rng.bytes(16).try_into().unwrap());
+                c.s.asset_insert(0, kind, Some(id), 4000 + c.rng.below(500) as u64);
+                let d = c.drain(80);
+                c.s.trace.push(json!({"ev":"drain","quiescent":d.0,"rounds":d.1}));
+                let w = c.rng.range(1, c.nclients as usize) as u32;
+                c.s.trace.push(json!({"ev":"overwrite","peer":w,"prev":0}));
+                c.s.asset_insert(w, kind, Some(id), 5000 + c.rng.below(500) as u64);
+                let d = c.drain(80);
+                c.s.trace.push(json!({"ev":"drain","quiescent":d.0,"rounds":d.1}));
+                let shift = c.rng.below(5);
+                let j = c.s.add_client(cfg_for(family), shift);
+                c.nclients += 1;
+                c.s.describe_peers();
+                c.s.connect(j);
+                let ok = c.wait_connected(j, 80);
+                c.s.trace.push(json!({"ev":"late_join","peer":j,"ok":ok}));
+                c.lockstep(10);
+                std::thread::sleep(std::time::Duration::from_millis(200));
+                let d = c.drain(120);
+                c.s.trace.push(json!({"ev":"drain","quiescent":d.0,"rounds":d.1}));
+            }
             // one history in six: a burst — 20 to 40 assets of one class published in one frame, all downloads finishing while
             // the readers stand still (more than any per-frame budget an implementation might have)
             if idx % 6 == 1 {
@@ -1553,9 +1604,16 @@ fn history(family: &str, seed: u64, idx: usize, thorough: bool, out: &mut impl W
                 c.s.connect(j);
                 c.s.trace.push(json!({"ev":"join_begin","peer":j,"writer":w}));
                 if crowded {
-                    // the host runs ahead: whole bursts of the snapshot wait in the joiner's socket
+                    // the host runs ahead: whole bursts of the snapshot wait in the joiner's socket — and it keeps rewriting
+                    // the youngest entities (the tail of the snapshot) while the snapshot is on its way
+                    let young: Vec<u32> = c.live.iter().rev().take(12).cloned().collect();
                     for _ in 0..c.rng.range(10, 40) {
                         for _ in 0..c.rng.range(2, 6) {
+                            if !young.is_empty() && c.rng.chance(1, 2) {
+                                let h = *c.rng.pick(&young);
+                                let v = small_val(&mut c.rng, Ty::A);
+                                c.s.write(0, h, &v, &[]);
+                            }
                             c.s.step(0);
                         }
                         c.s.step(j);
